@@ -214,12 +214,12 @@ CHECKS = {
     'C18': dict(
         text='Refinement proof: a hand model of DynamicNumpyArray (same index arithmetic, growth, re-pad and drop rules, NumPy '
              'semantics on the backing array) refines a plain Python list under an invariant, method by method (len, a[i], '
-             'a[s:e] with negative/omitted bounds, item assignment, append, append_multiple, delete, flush, last, past) and, by '
+             'a[s:e] with negative/omitted bounds, item assignment, equal-length slice assignment, append, append_multiple, delete, flush, last, past) and, by '
              'induction, for every operation history, with and without drop_at; the model raises exactly where the list does. '
              'Tie: step-by-step correspondence of the model with the real class on seeded operation sequences.',
         technique='Lean 4 refinement + invariant induction over operation lists; line-protocol correspondence with the real class; bounded-exhaustive + random list oracle',
         ref='4 (C18)',
-        note='Equal-length slice assignment is covered by correspondence and the list oracle; its refinement theorem is not yet stated.'),
+        note='Equal-length slice assignment has its own method theorem (refines_setSlice) but is not an operation of the history theorem; histories containing it are covered by correspondence and the list oracle.'),
     'C19': dict(
         text='Proof over the generated convert_number and per-gene body of dna_to_hp plus hand models of its loop and of '
              '_prepare_routes/_init_objects: in range, integers for int, endpoints, monotone through half-even rounding, '
